@@ -24,7 +24,7 @@ func cellSample(every int) func(c schema.Cell) bool {
 
 func runC06(args []string) {
 	r := core.NewRun("C06", "fault_enumeration")
-	r.Rule = "codec corpus (systematic matrix + seeded random schemas); per record type several values with distinct encodings chosen by the boundary-driven value generator; " +
+	r.Rule = "codec corpus (systematic matrix + seeded random schemas); per record type several values with distinct encodings: of 18 generated values (12 + 6 with every field present and shifted variants) the first and those adding the most wire features (role kinds; counts announcing 0/1/several/many); " +
 		"EVERY strict prefix 0 <= k < len of each encoding is given to UnmarshalBebop (exactly sized buffer) and to DecodeBebop (metering reader ending in EOF; for part of the values also ending in io.ErrUnexpectedEOF and a generic error); " +
 		"oracle per cut: a non-nil error is returned; no panic, no process death, no reads-after-end runaway, CPU within 2 s, allocation <= 64KiB + 1024*len. " +
 		"distinct_nontrivial = distinct (record type, decoder, wire role of the first missing byte) triples cut."
